@@ -11,7 +11,7 @@ use chumsky::error::EmptyErr;
 
 pub const ID: &str = "C01";
 
-pub const RULE: &str = "cases = (grammar, input): (a) bounded-exhaustive tier: every tree of <= 3 combinator nodes over 5 primitives, plus every single item source and every PAIR of item sources joined by then and consumed by one collect / count (or_not() / into_iter() over every tree of <= 1 combinator node: the IterParser implementations of or_not and then), x every string over {a,b,c} up to length L (L=4 quick, 6 thorough); (b) random tier: grammars decoded from proptest choice tapes (C01 class: all primitives incl. select/custom/end/empty, then/ignore_then/then_ignore/group tuple+array, or/choice tuple+Vec+array, or_not, not, and_is, rewind, delimited_by, padded_by, map/to/ignored/unwrapped, filter/try_map/try_map_with; depth <= 5, <= 25 nodes, 2..4 symbols of {a b c , ( ) é → 𝄞}) (a fifth of the grammars also contain or_not / then / into_iter used as item sources under one collect / count) with 60% derived sentences (+0..2 edits) and 40% random strings, on &str and &[char]. Each case runs parse+check with Rich and EmptyErr, the plain and the observed (every node wrapped in map_with(span)) build, and g.then(rest). Statically typed families on every string over {a b c d e e-acute u-umlaut arrow} up to length 3 / 4: every Seq / OrderedSeq representation of a token set or sequence (token, &token, slice, array, &array, Vec, LinkedList, HashSet, BTreeSet, Range, RangeInclusive, RangeFrom, &str, String) against the membership predicate with the range bounds and their neighbours as tokens; custom parsers written with each InputRef method (next, next_maybe, next_ref, peek, peek_ref, skip, save / rewind, slice_since / slice_from, span_since / span_from) against their meaning; one-element choice / group tuples and the empty choice. One random case in twelve is also run on every other input representation (C10's comparison against the slice baseline). NON-TRIVIAL = the reference abandoned or rewound at least one attempt (alternative, optional, lookahead, and_is) after it had consumed input, or a filter/try_map rejected; distinct = distinct (sub-check, grammar, input).";
+pub const RULE: &str = "cases = (grammar, input): (a) bounded-exhaustive tier: every tree of <= 3 combinator nodes over 5 primitives, plus every single item source and every PAIR of item sources joined by then and consumed by one collect / count (or_not() / into_iter() over every tree of <= 1 combinator node: the IterParser implementations of or_not and then), x every string over {a,b,c} up to length L (L=4 quick, 6 thorough); (b) random tier: grammars decoded from proptest choice tapes (C01 class: all primitives incl. select/custom/end/empty, then/ignore_then/then_ignore/group tuple+array, or/choice tuple+Vec+array, or_not, not, and_is, rewind, delimited_by, padded_by, map/to/ignored/unwrapped, filter/try_map/try_map_with; depth <= 5, <= 25 nodes, 2..4 symbols of {a b c , ( ) é → 𝄞}) (a fifth of the grammars also contain or_not / then / into_iter used as item sources under one collect / count) with 60% derived sentences (+0..2 edits) and 40% random strings, on &str and &[char]. Each case runs parse+check with Rich and EmptyErr, the plain and the observed (every node wrapped in map_with(span)) build, and g.then(rest). Statically typed families on every string over {a b c d e e-acute u-umlaut arrow} up to length 3 / 4: every Seq / OrderedSeq representation of a token set or sequence (token, &token, slice, array, &array, Vec, LinkedList, HashSet, BTreeSet, Range, RangeInclusive, RangeFrom, &str, String) against the membership predicate with the range bounds and their neighbours as tokens; custom parsers written with each InputRef method (next, next_maybe, next_ref, peek, peek_ref, skip, save / rewind, slice_since / slice_from, span_since / span_from) against their meaning; one-element choice / group tuples and the empty choice. One random case in twelve is also run on every other input representation (C10's comparison against the slice baseline). One random case in twelve also runs on every other input representation (C10's comparison; the plain / boxed Stream sits over an iterator whose size_hint is (0, None)). NON-TRIVIAL = the reference abandoned or rewound at least one attempt (alternative, optional, lookahead, and_is) after it had consumed input, or a filter/try_map rejected; distinct = distinct (sub-check, grammar, input).";
 
 pub const ASSUMPTIONS: &[&str] = &[
     "the reference PEG evaluator (harness/src/reference.rs) is the oracle; it was written from the PEG definitions, not from chumsky's code",
